@@ -23,4 +23,10 @@ func main() {
 	}
 	dh.Corpus(r)
 	dh.Generate(r, 2, []int{2}, 3)
+	if r.Thorough() {
+		dh.Exhaustive(r, 2, 4, 10)
+		dh.Exhaustive(r, 2, 5, 6)
+	} else {
+		dh.Exhaustive(r, 2, 3, 7)
+	}
 }
